@@ -86,7 +86,10 @@ def text_trigger(q: str) -> Optional[str]:
 def expected_sent(k: int, q: str) -> str:
     """the re-indented text a correct embedding hands to the transport (twin of Ariadne.Embed.expectedSent)"""
     out = "\n"
-    for l in q.splitlines():
+    lines = q.split("\n")  # a correct embedding keeps every character of a line: only \n ends a line
+    if lines and lines[-1] == "":
+        lines.pop()
+    for l in lines:
         out += (l if all(c == " " for c in l) else " " * k + l) + "\n"
     return out + " " * k
 
@@ -307,3 +310,851 @@ def _strings_blanked(x: Any) -> Any:
 
 def diff_signature(got: Any, want: Any) -> str:
     return "ast-differs:literal" if _strings_blanked(got) == _strings_blanked(want) else "ast-differs:other"
+
+
+# --------------------------------------------------------------------------------------------
+# the oracle through the real generated client
+# --------------------------------------------------------------------------------------------
+
+EXTRACT_PLUGIN = "ariadne_codegen.contrib.extract_operations.ExtractOperationsPlugin"
+
+
+def operations_constants(source: str) -> Dict[str, Any]:
+    """NAME_GQL -> value, from the emitted operations module (ExtractOperationsPlugin)"""
+    out: Dict[str, Any] = {}
+    tree = ast.parse(source)
+    for st in tree.body:
+        if isinstance(st, ast.Assign) and len(st.targets) == 1 and isinstance(st.targets[0], ast.Name) and st.targets[0].id != "__all__":
+            try:
+                out[st.targets[0].id] = ast.literal_eval(st.value)
+            except Exception as e:  # noqa: BLE001
+                out[st.targets[0].id] = e
+    return out
+
+
+def gql_constant_name(op: str) -> str:
+    """ExtractOperationsPlugin's documented constant name: SNAKE_CASE_NAME + _GQL (independent re-statement)"""
+    import re
+
+    words = re.findall(r"[A-Z]?[a-z]+|[A-Z]+(?=[A-Z][a-z]|\d|\W|_|$)|\d+", op)
+    return "_".join(w.lower() for w in words).upper() + "_GQL"
+
+
+def case_triggers(auth: Authored, op_names: List[str], model_flags: Optional[Dict[str, Dict[str, Any]]]) -> Dict[str, List[str]]:
+    """finding-trigger predicates an operation satisfies: text triggers on graphql-core's own print of the
+    authored operation + reachable fragments, `mixinOnFragDef` on the authored AST, `droppedSpread` from
+    the model's generator state (Ariadne.OpText.droppedSpread, evaluated by the driver)"""
+    out: Dict[str, List[str]] = {}
+    for op in op_names:
+        t: List[str] = []
+        tt = text_trigger(auth.printed(op))
+        if tt:
+            t.append(tt)
+        if auth.mixin_on_reachable_fragment(op):
+            t.append("mixinOnFragDef")
+        if model_flags and model_flags.get(op, {}).get("dropped"):
+            t.append("droppedSpread")
+        out[op] = t
+    return out
+
+
+def pick_trigger(triggers: List[str], signature: str, findings: List[Dict[str, Any]]) -> Optional[str]:
+    for t in triggers:
+        for f in findings:
+            sigs = f.get("signature")
+            sigs = sigs if isinstance(sigs, list) else [sigs]
+            if f.get("status") == "open" and f.get("trigger") == t and signature in sigs:
+                return t
+    return triggers[0] if triggers else None
+
+
+def judge_e2e(case: Dict[str, Any], out: Dict[str, Any], model_flags: Optional[Dict[str, Dict[str, Any]]], res: Result,
+              findings: List[Dict[str, Any]]) -> List[Failure]:
+    """all clauses of the property for one generated package"""
+    fails: List[Failure] = []
+    auth = Authored(case["sdl"], case["queries"])
+    ops = [c["op"] for c in case["calls"]]
+    trig = case_triggers(auth, ops, model_flags)
+    all_trig: List[str] = []
+    for op in ops:
+        all_trig += [t for t in trig[op] if t not in all_trig]
+    inp = {k: case[k] for k in ("sdl", "queries", "config", "calls", "label") if k in case}
+
+    def fail(sig: str, triggers: List[str], detail: str, op: Optional[str] = None) -> None:
+        fails.append(Failure(sig, pick_trigger(triggers, sig, findings), {**inp, "op": op}, detail))
+
+    if out["gen"] != "ok":
+        res.count("e2e:generation:" + out["gen"])
+        # a crash inside the source formatters (black / the Python parser) is the embedding breaking the module;
+        # every other generation failure is C04's business, not judged here
+        if out["gen"] in ("internal:InvalidInput", "internal:SyntaxError", "internal:NothingChanged", "internal:IndentationError"):
+            fail("generation-internal-error", all_trig, out["gen"] + ": " + out.get("message", "")[:160])
+        return fails
+    if out.get("import") != "ok":
+        res.count("e2e:import-failed (not judged here)")
+        return fails
+    extract = EXTRACT_PLUGIN in ((case.get("config") or {}).get("plugins") or [])
+    consts = None
+    if extract:
+        src = (out.get("sources") or {}).get("operations.py")
+        consts = operations_constants(src) if src is not None else None
+    for call in out.get("calls", []):
+        op = call["op"]
+        sent = call.get("sent")
+        if call.get("outcome") == "no-method" or sent is None:
+            res.count("e2e:no-request-captured (not judged)")
+            continue
+        res.count("e2e:operations-judged")
+        bad = judge_text(auth, op, sent.get("query"), sent.get("operationName"))
+        if bad:
+            fail(bad[0], trig[op], f"{op}: {bad[1]}", op)
+        elif extract:
+            if consts is None or gql_constant_name(op) not in consts:
+                fail("operations-constant-missing", trig[op], f"{gql_constant_name(op)} not in operations module", op)
+            else:
+                bad = judge_text(auth, op, consts[gql_constant_name(op)], None, check_name=False)
+                if bad:
+                    fail("constant:" + bad[0], trig[op], f"{op}: {bad[1]}", op)
+                elif consts[gql_constant_name(op)] != sent.get("query"):
+                    fail("constant-differs-from-sent", trig[op], f"{op}: the client sends another text than the constant", op)
+    return fails
+
+
+# --------------------------------------------------------------------------------------------
+# running the model on a case
+# --------------------------------------------------------------------------------------------
+
+
+def observe_case(case: Dict[str, Any]) -> Dict[str, Any]:
+    """child side: the real ResultTypesGenerator per operation (obs_result), trimmed to what C02 compares"""
+    obs = obs_result.observe({"sdl": case["sdl"], "queries": case["queries"], "snake": case.get("snake", True), "scalars": case.get("scalars", [])})
+    defs = []
+    for d in obs["defs"]:
+        impl = d["impl"]
+        keep = {k: impl[k] for k in ("mixins", "unpacked", "marks", "related", "opstr", "opstr_error", "error", "msg") if k in impl}
+        defs.append({"kind": d["kind"], "name": d["name"], "wire": d["wire"], "impl": keep})
+    return {"env": obs["env"], "defs": defs}
+
+
+def model_lines(obs: Dict[str, Any]) -> Tuple[List[Dict[str, Any]], List[Dict[str, Any]]]:
+    """driver lines for the operations of an observed case, marks threaded from the implementation's own
+    observations (each line is then independent of the model's earlier answers)"""
+    lines, defs = [], []
+    marks: List[int] = []
+    for d in obs["defs"]:
+        if d["kind"] != "op":
+            continue
+        lines.append({"op": "sentDoc", **obs["env"], "operation": d["wire"], "marksIn": sorted(marks)})
+        defs.append(d)
+        for m in d["impl"].get("marks", []) or []:
+            if m > 0 and m not in marks:
+                marks.append(m)
+    return lines, defs
+
+
+def compare_sent_doc(case_label: Any, d: Dict[str, Any], marks_in: List[int], model: Dict[str, Any], frag_wires: Dict[str, Any],
+                     res: Result) -> None:
+    """correspondence (a) for one operation"""
+    from graphql import parse
+
+    impl = d["impl"]
+    name = d["name"]
+    inp = {"case": case_label, "operation": name}
+    if "error" in impl:
+        res.count("sentdoc:generator-error:" + impl["error"])
+        if "gen" not in model or model["gen"].get("error") != impl["error"]:
+            res.mismatches.append(Mismatch("sentDoc.generator-error", inp, impl["error"], model.get("gen", "ok")))
+        return
+    if "gen" in model:
+        res.mismatches.append(Mismatch("sentDoc.generator-error", inp, "ok", model["gen"]))
+        return
+    new_marks = sorted(m for m in model["marks"] if m not in marks_in)
+    state_impl = {"mixins": sorted(impl["mixins"]), "unpacked": sorted(impl["unpacked"]), "marks": sorted(impl["marks"])}
+    state_model = {"mixins": sorted(model["mixins"]), "unpacked": sorted(model["unpacked"]), "marks": new_marks}
+    if state_impl != state_model:
+        res.mismatches.append(Mismatch("sentDoc.generator-state", inp, state_impl, state_model))
+        return
+    if "opstr_error" in impl:
+        res.count("sentdoc:opstr-error:" + impl["opstr_error"]["error"])
+        if model.get("opstr", {}).get("error") != impl["opstr_error"]["error"]:
+            res.mismatches.append(Mismatch("sentDoc.opstr-error", inp, impl["opstr_error"], model.get("opstr", "ok")))
+        return
+    if "opstr" in model:
+        res.mismatches.append(Mismatch("sentDoc.opstr-error", inp, "ok", model["opstr"]))
+        return
+    if sorted(impl["related"]) != sorted(model["related"]):
+        res.mismatches.append(Mismatch("sentDoc.related", inp, sorted(impl["related"]), sorted(model["related"])))
+        return
+    ir = doc_ir(parse(impl["opstr"], no_location=True))
+    got = {"op": ir["ops"][0] if len(ir["ops"]) == 1 else ir["ops"], "frags": ir["frags"]}
+    if not common.same_json(got, model["doc"]):
+        res.mismatches.append(Mismatch("sentDoc.document", inp, got, model["doc"]))
+        return
+    # the trigger predicates exist twice: python twins vs the model's flags
+    op_sel = strip_sids(d["wire"])["sel"]
+    frs = {n: strip_sids(w) for n, w in frag_wires.items()}
+    related = set(impl["related"])
+    py_dropped = not (set(direct_spreads(op_sel)) <= related and all(set(direct_spreads(frs[u]["sel"])) <= related for u in impl["unpacked"] if u in frs))
+    py_mixin = any(any(x["name"] == MIXIN for x in frs[n]["dirs"]) for n in related if n in frs)
+    reach = reachable(op_sel, frs)
+    py_sound = set(impl["mixins"]) <= set(reach) and set(impl["unpacked"]) <= set(reach)
+    flags_py = {"dropped": py_dropped, "mixinOnFrag": py_mixin, "stateSound": py_sound, "reach": sorted(reach)}
+    flags_model = {"dropped": model["dropped"], "mixinOnFrag": model["mixinOnFrag"], "stateSound": model["stateSound"],
+                   "reach": sorted(model["reach"] or [])}
+    if flags_py != flags_model:
+        res.mismatches.append(Mismatch("sentDoc.triggers", inp, flags_py, flags_model))
+    res.count("sentdoc:trigger droppedSpread" if py_dropped else "sentdoc:no dropped spread")
+    if py_mixin:
+        res.count("sentdoc:trigger mixinOnFragDef")
+    if not py_sound:
+        res.count("sentdoc:generator state NOT within reachable (outside Proved_02)")
+    res.count("sentdoc:related=%s" % min(len(related), 4))
+    res.count("sentdoc:with automatic __typename" if state_impl["marks"] or marks_in else "sentdoc:no automatic __typename")
+    if py_dropped != (set(reach) - related != set()) and py_sound:
+        res.mismatches.append(Mismatch("sentDoc.trigger-is-failure-region", inp, {"dropped": py_dropped}, {"missing": sorted(set(reach) - related)}))
+
+
+# --------------------------------------------------------------------------------------------
+# generators
+# --------------------------------------------------------------------------------------------
+
+# GraphQL SOURCE text of string literal contents (already GraphQL-escaped), outside every trigger
+LIT_SAFE = ["abc", "two words", "a # b = c", "x=1&y=2", '\\"q\\"', "\\\\", "a\\tb", "\\u00e9", "\u00e9t\u00e9", "\U0001f600", "nb\u00a0sp",
+            "wide\u3000space", "zw\u200bsp", "{ } ( ) [ ] $v @d ...F", "\\b\\f\\r", "a/b", "C:\\\\dir\\\\file", "", "0", "null", "  lead",
+            "trail  ", "a,b", "\u00fcn\u00ef", "\\u000b", "\\u0085", "# not a comment", "query Q { a }", "\\\\\\\\", "tab\\there", "\\\\t",
+            "\u4e2d\u6587", "a\\\\", '\\"', "x\\\\ny"[:3] + "z", "\ufeff"]
+# contents inside a trigger region, by trigger
+LIT_TRIG = {
+    "textQuote": ["it's", "'", "a'b'c", "''"],
+    "textEscN": ["a\\nb", "C:\\\\new", "\\n", "x\\\\\\nb"],
+    "textLineSep": ["a\u2028b", "\u2029", "p\u2028\u2029q"],
+}
+BLOCK_STRINGS = ['"""block"""', '"""two\n  lines"""', '"""it\'s"""']
+
+MIXIN_DIR = {"name": "mixin", "from": "abc", "import": "ABC"}
+MIXIN_SDL = "\ndirective @mixin(from: String, import: String) repeatable on FIELD | FRAGMENT_DEFINITION\n"
+
+FRAGMENT_HEAVY = {"spread_same": 0.45, "spread_sub": 0.35, "nested_spread": 0.5, "spread_with_inline": 0.3,
+                  "spread_iface_at_object": 0.3, "inline_obj": 0.6, "typename": 0.15, "alias": 0.25, "dir_field": 0.1}
+REGIONS = {"spread_iface": 0.35, "dup_key": 0.08, "inline_iface": 0.1, "abstract_in_mixin": 0.3, "mixin_and_unpacked": 0.3,
+           "dir_frag": 0.1}
+
+
+def gql_literal(rng: random.Random, region: Optional[str]) -> str:
+    if region == "textBlockString":
+        return rng.choice(BLOCK_STRINGS)
+    parts = [rng.choice(LIT_SAFE) for _ in range(rng.randint(1, 2))]
+    if region in LIT_TRIG:
+        parts.insert(rng.randint(0, len(parts)), rng.choice(LIT_TRIG[region]))
+    return '"' + " ".join(parts) + '"'
+
+
+def _all_fields(sel: List[Dict[str, Any]]) -> List[Dict[str, Any]]:
+    out = []
+    for s in sel:
+        if s["k"] == "field":
+            out.append(s)
+        if s["k"] != "spread":
+            out += _all_fields(s.get("sel", []))
+    return out
+
+
+def gen_case(rng: random.Random, idx: int, *, regions: bool, literal_region: Optional[str] = None, literals: float = 0.6,
+             mixin_frag: float = 0.0, mixin_field: float = 0.15, subscription: bool = False) -> Optional[Dict[str, Any]]:
+    """(schema, operations sharing fragments) from the shared generators, decorated with what C02 is about:
+    string literals (arguments, variable defaults; in operations and in shared root fragments), @mixin on fields
+    and — trigger region of F6 — on fragment definitions, unused fragments."""
+    schema = schema_gen.gen_schema(rng, size=rng.choice([1, 2, 2, 3]), subscription=subscription, custom_root_names=0.1)
+    tm = schema_gen.type_map(schema)
+    echo = {"name": "echoStr", "type": schema_gen.named("String"),
+            "args": [{"name": "s", "type": schema_gen.named("String"), "default": None},
+                     {"name": "ss", "type": ["list", ["nonnull", schema_gen.named("String")]], "default": None}]}
+    for r in ("query", "mutation"):
+        if schema.get(r):
+            tm[schema[r]]["fields"].append(dict(echo))
+    feats = dict(FRAGMENT_HEAVY)
+    if regions:
+        for k, v in REGIONS.items():
+            if rng.random() < 0.5:
+                feats[k] = v
+    kinds = tuple(k for k in ("query", "mutation", "subscription") if schema.get(k))
+    doc = ops_gen.gen_document(schema, rng, n_ops=rng.randint(1, 4), features=feats, kinds=kinds)
+    if not doc["operations"]:
+        return None
+    lit_n = 0
+    shared_root: Dict[str, str] = {}
+    for op in doc["operations"]:
+        if op["kind"] == "subscription":
+            continue
+        root = schema[op["kind"]]
+        if rng.random() < literals:
+            for _ in range(rng.randint(1, 2)):
+                lit_n += 1
+                how = rng.random()
+                region = literal_region if (literal_region and (lit_n == 1 or rng.random() < 0.3)) else None
+                lit = gql_literal(rng, region)
+                if how < 0.55:
+                    arg = {"name": "s", "var": None, "lit": lit}
+                elif how < 0.7:
+                    arg = {"name": "ss", "var": None, "lit": "[" + lit + ", " + gql_literal(rng, None) + "]"}
+                else:
+                    v = f"strv{lit_n}"
+                    op["vars"].append({"name": v, "type": schema_gen.named("String"), "default": lit})
+                    arg = {"name": "s", "var": v, "lit": None}
+                f = {"k": "field", "alias": f"e{lit_n}", "name": "echoStr", "args": [arg], "dirs": [], "sel": []}
+                if arg["var"] is None and rng.random() < 0.3:
+                    # the literal lives in a fragment on the root type, shared by the operations of that kind
+                    if root not in shared_root:
+                        shared_root[root] = f"RootLit{len(shared_root)}"
+                        doc["fragments"].append({"name": shared_root[root], "on": root, "sel": [f], "mixins": []})
+                    if not any(s["k"] == "spread" and s["name"] == shared_root[root] for s in op["sel"]):
+                        op["sel"].append({"k": "spread", "name": shared_root[root], "dirs": []})
+                else:
+                    op["sel"].append(f)
+    frags = {f["name"]: f for f in doc["fragments"]}
+    for op in doc["operations"]:
+        for f in _all_fields(op["sel"]):
+            if f["sel"] and rng.random() < mixin_field:
+                f["dirs"] = f["dirs"] + [dict(MIXIN_DIR)]
+    for f in doc["fragments"]:
+        for x in _all_fields(f["sel"]):
+            if x["sel"] and rng.random() < mixin_field:
+                x["dirs"] = x["dirs"] + [dict(MIXIN_DIR)]
+        if rng.random() < mixin_frag:
+            f["dirs"] = [dict(MIXIN_DIR)]
+    if rng.random() < 0.25:
+        objs = [t for t in schema["types"] if t["kind"] == "object" and t["fields"]]
+        t = rng.choice(objs)
+        leaf = [fd for fd in t["fields"] if not any(a["type"][0] == "nonnull" for a in fd.get("args", []))
+                and tm.get(schema_gen.unwrap(fd["type"]), {"kind": "scalar"})["kind"] in ("scalar", "enum")]
+        if leaf:
+            fd = rng.choice(leaf)
+            doc["fragments"].append({"name": "UnusedOne", "on": t["name"], "mixins": [],
+                                     "sel": [{"k": "field", "alias": None, "name": fd["name"], "args": [], "dirs": [], "sel": []}]})
+    sdl = schema_gen.to_sdl(schema)
+    queries = ops_gen.render_document(doc)
+    try:
+        from graphql import NoUnusedFragmentsRule, build_schema, parse, specified_rules, validate
+
+        errs = validate(build_schema(sdl + MIXIN_SDL), parse(queries), [r for r in specified_rules if r is not NoUnusedFragmentsRule])
+        if errs:
+            return None
+    except Exception:  # noqa: BLE001 - the generators produced something graphql-core refuses: not an input
+        return None
+    calls = []
+    for op in doc["operations"]:
+        vrng = random.Random(f"{idx}:{op['name']}")
+        vs = {}
+        for v in op["vars"]:
+            if v.get("default") is not None and vrng.random() < 0.5:
+                continue
+            vs[v["name"]] = values.input_value(schema, v["type"], vrng)
+        calls.append({"op": op["name"], "vars": vs, "seed": idx})
+    return {"label": f"random-{idx}", "sdl": sdl, "queries": queries, "config": {}, "calls": calls,
+            "literal_region": literal_region, "n_ops": len(doc["operations"]), "n_frags": len(doc["fragments"])}
+
+
+# ---- operation TEXTS for the embedding correspondence
+
+TEXT_ALPHABET_SAFE = list("abcnrtux QZ09_{}()[]:,$@!|&=#.\"/-") + ["\\", "\\\\", "\\\"", "\\t", "\\u00e9", "\\b", "  ", "\t", "\u00e9", "\u00a0", "\u3000",
+                                                                 "\u200b", "\U0001f600", "\u4e2d", "\x7f", "\x01", "\x1f", "\ufeff", "\u0378", "\ue000",
+                                                                 "\U000e0001", "\\x", "\\u", "\\N", "\\0", "\"\""]
+TEXT_UNSAFE = {"textQuote": ['"\'"', '"it\'s"', '"\\\'"'], "textEscN": ["\\n", "\\\\n"], "textBlockString": ['"""', '""""'],
+               "textLineSep": ["\u2028", "\u2029", "\r", "\x0b", "\x0c", "\x1c", "\x1d", "\x1e", "\x85", "\r\n"]}
+
+
+def gen_text(rng: random.Random, region: Optional[str]) -> str:
+    """a text shaped like a printed operation (several lines, blank lines between definitions) over an
+    alphabet that stresses the embedding"""
+    lines = []
+    for _ in range(rng.randint(2, 6)):  # a printed operation has at least three lines; one line alone is not rewritten at all
+        if rng.random() < 0.12:
+            lines.append("" if rng.random() < 0.7 else "  ")
+            continue
+        line = "  " * rng.randint(0, 3)
+        for _ in range(rng.randint(1, 8)):
+            line += rng.choice(TEXT_ALPHABET_SAFE)
+        lines.append(line)
+    q = "\n".join(lines)
+    if rng.random() < 0.2:
+        q += "\n"
+    # the safe alphabet can assemble a trigger by accident (`\` + `n`, `"` * 3): classification decides, not intent
+    if region:
+        pos = rng.randint(0, len(q))
+        q = q[:pos] + rng.choice(TEXT_UNSAFE[region]) + q[pos:]
+    if len(q.splitlines()) < 2:
+        q += "\n}"
+    return q
+
+
+REAL_TEXTS = [
+    'query Q {\n  echo(s: "abc")\n}',
+    'query GetUser($id: ID!, $flag: Boolean! = false) {\n  user(id: $id) {\n    __typename\n    id\n    ...F\n  }\n}\n\nfragment F on User {\n  name @include(if: $flag)\n}',
+    'mutation M {\n  a: echo(s: "x # y = z")\n  b: echo(s: "\\"q\\" \\\\ \\t \\u000B")\n}',
+    'query Q {\n  echo(s: "\u00e9 \u00a0 \u3000 \u200b \U0001f600")\n}',
+    "subscription S {\n  ticks\n}",
+]
+
+
+# --------------------------------------------------------------------------------------------
+# the REAL embedding pipeline on one operation text
+# --------------------------------------------------------------------------------------------
+
+
+def _find_constant(tree: ast.AST, target: str) -> Any:
+    for node in ast.walk(tree):
+        if isinstance(node, ast.Assign) and len(node.targets) == 1 and isinstance(node.targets[0], ast.Name) and node.targets[0].id == target:
+            v = node.value
+            if isinstance(v, ast.Call) and len(v.args) == 1:
+                v = v.args[0]
+            return ast.literal_eval(v)
+    raise LookupError(target)
+
+
+def _literal_of(source: str) -> Optional[str]:
+    i = source.find('"""')
+    j = source.rfind('"""')
+    return source[i : j + 3] if 0 <= i < j else None
+
+
+def real_embed(text: str, variant: str) -> Dict[str, Any]:
+    """variant "client": ClientGenerator._generate_operation_str_assign inside a method of a class, through
+    ast_to_str(module, multiline_strings=True) exactly as PackageGenerator writes client.py;
+    variant "extract": ExtractOperationsPlugin._get_operations_module + _module_to_str."""
+    from ariadne_codegen.utils import ast_to_str, format_multiline_strings
+
+    out: Dict[str, Any] = {}
+    try:
+        if variant == "client":
+            from ariadne_codegen.client_generators.client import ClientGenerator
+
+            stub = SimpleNamespace(_operation_str_variable="query", _gql_func_name="gql")
+            assign = ClientGenerator._generate_operation_str_assign(stub, {"query": "query"}, text, 1)  # type: ignore[arg-type]
+            fn = ast.FunctionDef(name="m", args=ast.arguments(posonlyargs=[], args=[ast.arg(arg="self")], kwonlyargs=[], kw_defaults=[], defaults=[]),
+                                 body=[assign, ast.Return(value=ast.Name(id="query", ctx=ast.Load()))], decorator_list=[], lineno=1)
+            cls = ast.ClassDef(name="Client", bases=[], keywords=[], body=[fn], decorator_list=[])
+            module = ast.fix_missing_locations(ast.Module(body=[cls], type_ignores=[]))
+            unparsed = ast.unparse(assign.value)
+            out["unparsed"] = unparsed[len("gql(") : -1] if unparsed.startswith("gql(") and unparsed.endswith(")") else unparsed
+            out["literal"] = _literal_of(format_multiline_strings(ast.unparse(module), offset=4))
+            code = ast_to_str(module, multiline_strings=True)
+            target = "query"
+        else:
+            from ariadne_codegen.contrib.extract_operations import ExtractOperationsPlugin
+            from ariadne_codegen.settings import CommentsStrategy
+
+            plugin = ExtractOperationsPlugin.__new__(ExtractOperationsPlugin)
+            plugin._operations_gqls = {"Q": text}
+            plugin._operations_variables = {"Q": "Q_GQL"}
+            plugin.settings = SimpleNamespace(include_comments=CommentsStrategy.NONE, queries_path="")  # type: ignore[assignment]
+            module = plugin._get_operations_module()
+            value = module.body[1].value
+            out["unparsed"] = "".join(ast.unparse(c) for c in value) if isinstance(value, list) else ast.unparse(value)
+            out["literal"] = _literal_of(format_multiline_strings("\n\n".join(ast.unparse(module).splitlines()), offset=0))
+            code = plugin._module_to_str(module)
+            target = "Q_GQL"
+    except (AttributeError, ImportError, TypeError) as e:
+        return {"observer": f"{type(e).__name__}: {e}"}
+    except Exception as e:  # noqa: BLE001 - black / the parser refusing the rewritten source
+        out["error"] = type(e).__name__
+        return out
+    try:
+        out["sent"] = _find_constant(ast.parse(code), target)
+    except Exception as e:  # noqa: BLE001
+        out["error"] = "emitted:" + type(e).__name__
+    return out
+
+
+def real_embed_batch(items: List[Tuple[str, str]]) -> List[Dict[str, Any]]:
+    import warnings
+
+    warnings.simplefilter("ignore")
+    return [real_embed(t, v) for t, v in items]
+
+
+def compare_embed(texts: List[Tuple[str, str, Optional[str]]], res: Result, st: Optional[LeanStatus]) -> None:
+    """correspondence (b) + (c): (text, variant, intended region)"""
+    chunks = [texts[i : i + 40] for i in range(0, len(texts), 40)]
+    outs = engine.pmap_forked(real_embed_batch, [([(t, v) for t, v, _ in ch],) for ch in chunks], timeout=600)
+    real: List[Dict[str, Any]] = []
+    for ch, (status, val) in zip(chunks, outs):
+        if status != "ok":
+            raise common.Infra(f"embedding observer failed: {status} {val}")
+        real += val
+    model: Optional[List[Any]] = None
+    if st is not None and st.driver_ok:
+        lines = [{"op": "embed", "text": cps(t), "vi": 8 if v == "client" else 0, "off": 4 if v == "client" else 0, "nonprintable": nonprintable(t)}
+                 for t, v, _ in texts]
+        model = common.run_driver(PROP, lines)
+    for i, (t, v, _) in enumerate(texts):
+        k = 12 if v == "client" else 0
+        trig = text_trigger(t)
+        r = real[i]
+        inp = {"text": t, "variant": v}
+        res.seen(["embed", t, v], nontrivial=len(t.splitlines()) >= 1)
+        res.count(f"embed:{v}:" + (trig or "safe"))
+        if "observer" in r:
+            res.mismatches.append(Mismatch("embed.observer", inp, "observer: " + r["observer"], None))
+            continue
+        preserved = r.get("sent") == expected_sent(k, t)
+        if trig is None:
+            if any(ord(c) >= 128 and not c.isprintable() for c in t):
+                res.count("embed:safe text with non-printable non-ASCII characters")
+            if "\\" in t:
+                res.count("embed:safe text with backslashes")
+            if not preserved:
+                # the property's embedding clause fails on a text outside every trigger
+                res.failures.append(Failure("embedding-alters-text", None, inp, f"real pipeline gives {r.get('sent', r.get('error'))!r}"))
+        else:
+            res.count(f"embed:{trig}:" + ("real pipeline preserves the text" if preserved else "real pipeline damages the text (" + (r.get("error") or "altered") + ")"))
+        if model is None:
+            continue
+        m = model[i]
+        if trig is not None or "unmodelled" in m:
+            if m.get("unmodelled") != trig:
+                res.mismatches.append(Mismatch("embed.trigger", inp, trig, m.get("unmodelled", "modelled")))
+            elif preserved:
+                res.mismatches.append(Mismatch("embed.preserved-inside-trigger", inp, "preserved", "unmodelled", trigger=trig))
+            continue
+        got = {"unparsed": r.get("unparsed"), "literal": r.get("literal"), "sent": r.get("sent", r.get("error"))}
+        want = {"unparsed": uncps(m["unparsed"]), "literal": uncps(m["literal"]), "sent": uncps(m["sent"])}
+        if got != want:
+            res.mismatches.append(Mismatch("embed.pipeline", inp, got, want))
+        if uncps(m["expected"]) != expected_sent(k, t) or m["sent"] != m["expected"]:
+            res.mismatches.append(Mismatch("embed.expected", inp, expected_sent(k, t), {"sent": uncps(m["sent"]), "expected": uncps(m["expected"])}))
+
+
+def compare_pystr(rng: random.Random, n: int, res: Result, st: Optional[LeanStatus]) -> None:
+    """Spec/PyStr.lean vs the running CPython"""
+    import textwrap
+    import warnings
+
+    if st is None or not st.driver_ok:
+        return
+    alphabet = TEXT_ALPHABET_SAFE + sum(TEXT_UNSAFE.values(), []) + ["\n", "\n", " "]
+    cases: List[Tuple[str, str, Any]] = []
+    for i in range(n):
+        t = "".join(rng.choice(alphabet) for _ in range(rng.randint(0, 12)))
+        fn = ("splitlines", "repr", "indent", "eval", "trigger")[i % 5]
+        if fn == "indent":
+            t = "".join(c for c in t if c not in LINE_SEPS[1:])  # pyIndent is stated for texts whose only raw break is \n
+        if fn == "eval":
+            body = t.replace('"""', '"')
+            if "\\N" in body or any(body[j] == "\\" and j + 1 < len(body) and body[j + 1] in "01234567" and (j == 0 or body[j - 1] != "\\" or True)
+                                    for j in range(len(body))):
+                body = body.replace("\\", "")
+            if body.endswith('"'):
+                body += " "
+            t = '"""' + body + '"""'
+        cases.append((fn, t, None))
+    lines = [{"op": "pystr", "fn": fn, "text": cps(t), "k": 4, "nonprintable": nonprintable(t)} for fn, t, _ in cases]
+    outs = common.run_driver(PROP, lines)
+    for (fn, t, _), o in zip(cases, outs):
+        res.count("pystr:" + fn)
+        res.seen(["pystr", fn, t], nontrivial=bool(t))
+        if fn == "splitlines":
+            want: Any = t.splitlines()
+            got: Any = [uncps(x) for x in o]
+        elif fn == "repr":
+            want, got = repr(t), uncps(o)
+        elif fn == "indent":
+            want, got = textwrap.indent(t, "    "), uncps(o)
+        elif fn == "trigger":
+            want, got = text_trigger(t), o
+        else:
+            with warnings.catch_warnings():
+                warnings.simplefilter("ignore")
+                try:
+                    want = ast.literal_eval(t)
+                except (SyntaxError, ValueError):
+                    want = None
+            got = uncps(o)
+        if want != got:
+            res.mismatches.append(Mismatch("pystr." + fn, {"text": t}, want, got))
+
+
+# --------------------------------------------------------------------------------------------
+# running cases
+# --------------------------------------------------------------------------------------------
+
+
+def e2e_child(case: Dict[str, Any]) -> Dict[str, Any]:
+    import warnings
+
+    warnings.simplefilter("ignore")
+    try:
+        obs: Any = observe_case(case)
+    except (AttributeError, ImportError, TypeError) as e:
+        obs = {"observer": f"{type(e).__name__}: {e}"}
+    except Exception as e:  # noqa: BLE001 - e.g. the queries do not parse
+        obs = {"observer_other": f"{type(e).__name__}: {e}"}
+    return {"obs": obs, "out": e2e.run_case(case)}
+
+
+def with_variant(case: Dict[str, Any], extract: bool, is_async: bool = True) -> Dict[str, Any]:
+    c = dict(case)
+    cfg = dict(case.get("config") or {})
+    if extract:
+        cfg["plugins"] = [EXTRACT_PLUGIN]
+        c["want"] = ["sources"]
+    if not is_async:
+        cfg["async_client"] = False
+    c["config"] = cfg
+    c["label"] = f"{case.get('label')}{'+extract' if extract else ''}{'' if is_async else '+sync'}"
+    return c
+
+
+def model_flags_of(obs: Any, st: Optional[LeanStatus]) -> Tuple[Optional[Dict[str, Dict[str, Any]]], List[Dict[str, Any]], List[Dict[str, Any]]]:
+    if not isinstance(obs, dict) or "defs" not in obs or st is None or not st.driver_ok:
+        return None, [], []
+    lines, defs = model_lines(obs)
+    outs = common.run_driver(PROP, lines) if lines else []
+    return {d["name"]: o for d, o in zip(defs, outs)}, lines, defs
+
+
+def run_e2e_cases(ctx: Ctx, cases: List[Dict[str, Any]], res: Result, st: Optional[LeanStatus], what: str) -> List[List[Failure]]:
+    """generate + drive every case through the real client, judge it, and compare what was SENT with the model's document"""
+    from graphql import GraphQLError, parse
+
+    findings = common.load_findings(PROP)
+    outs = engine.pmap_forked(e2e_child, [(c,) for c in cases], timeout=300)
+    per_case: List[List[Failure]] = []
+    for case, (status, val) in zip(cases, outs):
+        if status != "ok":
+            res.count(f"{what}:child-{status} (not judged)")
+            per_case.append([])
+            continue
+        out, obs = val["out"], val["obs"]
+        if isinstance(obs, dict) and "observer" in obs:
+            res.mismatches.append(Mismatch("sentDoc.observer", {"case": case.get("label")}, "observer: " + obs["observer"], None))
+        flags, lines, defs = model_flags_of(obs, st)
+        fails = judge_e2e(case, out, flags, res, findings)
+        per_case.append(fails)
+        res.failures += fails
+        res.seen([what, case["sdl"], case["queries"], case.get("config")], nontrivial=True)
+        res.count(f"{what}:packages")
+        if EXTRACT_PLUGIN in ((case.get("config") or {}).get("plugins") or []):
+            res.count(f"{what}:packages with ExtractOperationsPlugin")
+        # end-to-end tie: the document the generated client sent vs the model's document for that operation
+        if flags and out.get("gen") == "ok" and out.get("import") == "ok":
+            auth = Authored(case["sdl"], case["queries"])
+            for call in out.get("calls", []):
+                m = flags.get(call["op"])
+                sent = call.get("sent")
+                if not m or "doc" not in m or sent is None or text_trigger(auth.printed(call["op"])):
+                    continue
+                try:
+                    ir = doc_ir(parse(sent["query"], no_location=True))
+                except GraphQLError:
+                    continue  # judged by the oracle above
+                got = {"op": ir["ops"][0] if len(ir["ops"]) == 1 else ir["ops"], "frags": ir["frags"]}
+                res.count(f"{what}:sent document compared with the model")
+                if not common.same_json(got, m["doc"]):
+                    res.mismatches.append(Mismatch("e2e.sent-vs-model", {"case": case.get("label"), "operation": call["op"], "sdl": case["sdl"],
+                                                                       "queries": case["queries"]}, got, m["doc"]))
+                if sent.get("operationName") != m.get("operationName"):
+                    res.mismatches.append(Mismatch("e2e.operationName-vs-model", {"case": case.get("label"), "operation": call["op"]},
+                                                   sent.get("operationName"), m.get("operationName")))
+    return per_case
+
+
+def run_sentdoc_correspondence(ctx: Ctx, cases: List[Dict[str, Any]], res: Result, st: Optional[LeanStatus]) -> None:
+    if st is None or not st.driver_ok:
+        return
+    outs = engine.pmap_forked(observe_case, [(c,) for c in cases], timeout=300)
+    lines: List[Dict[str, Any]] = []
+    meta: List[Tuple[Any, Dict[str, Any], List[int], Dict[str, Any]]] = []
+    for case, (status, obs) in zip(cases, outs):
+        if status == "exc" and obs[0] in ("AttributeError", "ImportError", "TypeError"):
+            res.mismatches.append(Mismatch("sentDoc.observer", {"case": case.get("label")}, f"observer: {obs[0]}: {obs[1][:200]}", None))
+            continue
+        if status != "ok":
+            res.count(f"sentdoc:child-{status}")
+            continue
+        ls, defs = model_lines(obs)
+        frag_wires = {f["name"]: f for f in obs["env"]["fragments"]}
+        for l, d in zip(ls, defs):
+            lines.append(l)
+            meta.append(({"label": case.get("label"), "sdl": case["sdl"], "queries": case["queries"]}, d, l["marksIn"], frag_wires))
+        res.seen(["sentdoc", case["sdl"], case["queries"]], nontrivial=bool(frag_wires))
+        res.count("sentdoc:documents")
+        res.count("sentdoc:operations per document=%d" % min(len(ls), 4))
+    model = common.run_driver(PROP, lines, chunk=400) if lines else []
+    for (label, d, marks_in, frag_wires), m in zip(meta, model):
+        res.count("sentdoc:operations")
+        compare_sent_doc(label, d, marks_in, m, frag_wires, res)
+
+
+# --------------------------------------------------------------------------------------------
+# finding witnesses (corpus/C02/*.json)
+# --------------------------------------------------------------------------------------------
+
+
+def load_corpus() -> List[Dict[str, Any]]:
+    out = []
+    d = common.CORPUS / PROP
+    if d.is_dir():
+        for p in sorted(d.glob("*.json")):
+            w = json.loads(p.read_text())
+            w["_file"] = p.name
+            out.append(w)
+    return out
+
+
+def replay_corpus(ctx: Ctx, res: Result, st: Optional[LeanStatus]) -> None:
+    corpus = load_corpus()
+    findings = {f["id"]: f for f in common.load_findings(PROP)}
+    cases, owners = [], []
+    for w in corpus:
+        for extract in ((False, True) if w.get("both_variants", True) else (False,)):
+            cases.append(with_variant(w["case"], extract))
+            owners.append((w, extract))
+    sub = Result()
+    per_case = run_e2e_cases(ctx, cases, sub, st, "corpus")
+    # witnesses of OPEN findings are expected to fail with their own trigger/signature (classified by conclude);
+    # a witness of a FIXED finding, or a minimised past failure, must pass: its failures lose their trigger
+    status: Dict[str, str] = {}
+    for (w, extract), fails in zip(owners, per_case):
+        fid = w.get("finding")
+        if fid:
+            f = findings.get(fid)
+            hit = [x for x in fails if f and x.trigger == f.get("trigger") and x.signature in (f.get("signature") if isinstance(f.get("signature"), list) else [f.get("signature")])]
+            if hit:
+                status[fid] = "reproduces"
+            else:
+                status.setdefault(fid, "gone")
+            if f and f.get("status") != "open":
+                for x in fails:
+                    x.trigger = None
+        else:
+            for x in fails:
+                x.trigger = None
+    res.merge(sub)
+    res.witness_status.update(status)
+
+
+# --------------------------------------------------------------------------------------------
+# entry points
+# --------------------------------------------------------------------------------------------
+
+
+def preload() -> None:
+    import warnings
+
+    warnings.filterwarnings("ignore")
+    for m in ("ariadne_codegen.main", "ariadne_codegen.contrib.extract_operations", "black", "isort", "autoflake", "httpx", "pydantic", "graphql"):
+        try:
+            __import__(m)
+        except Exception:  # noqa: BLE001 - shows up in the children
+            pass
+
+
+def gen_cases(rng: random.Random, n: int, **kw: Any) -> List[Dict[str, Any]]:
+    out: List[Dict[str, Any]] = []
+    i = 0
+    while len(out) < n and i < 20 * n + 50:
+        c = gen_case(rng, i, **kw)
+        i += 1
+        if c:
+            out.append(c)
+    return out
+
+
+def gen_texts(rng: random.Random, n: int) -> List[Tuple[str, str, Optional[str]]]:
+    out: List[Tuple[str, str, Optional[str]]] = []
+    for t in REAL_TEXTS:
+        out += [(t, "client", None), (t, "extract", None)]
+    regions = list(TEXT_UNSAFE)
+    for i in range(n):
+        region = rng.choice(regions) if rng.random() < 0.15 else None
+        out.append((gen_text(rng, region), "client" if rng.random() < 0.7 else "extract", region))
+    return out
+
+
+def run(ctx: Ctx, st: Optional[LeanStatus]) -> Result:
+    res = Result()
+    res.rule = ("a case is (schema, operations+fragments document[, plugin configuration]) or an operation text; non-trivial = the document has "
+                "fragments / the text has at least one line; distinct = distinct inputs (hash of the texts)")
+    preload()
+    engine.cleanup_scratch()
+    res.extra["fingerprints"] = common.fingerprints(ctx, fingerprint_items())
+    ctx.log("replaying finding witnesses and corpus")
+    replay_corpus(ctx, res, st)
+    # (a) sent-document correspondence
+    rng = ctx.sub_rng("sentdoc")
+    n = ctx.budget(240, 2400)
+    cases = gen_cases(rng, n // 2, regions=False, mixin_frag=0.1) + gen_cases(rng, n - n // 2, regions=True, mixin_frag=0.15)
+    ctx.log(f"sent-document correspondence on {len(cases)} documents")
+    run_sentdoc_correspondence(ctx, cases, res, st)
+    # (b)+(c) embedding correspondence, reference semantics of CPython strings
+    texts = gen_texts(ctx.sub_rng("texts"), ctx.budget(1600, 16000))
+    ctx.log(f"embedding correspondence on {len(texts)} operation texts")
+    compare_embed(texts, res, st)
+    compare_pystr(ctx.sub_rng("pystr"), ctx.budget(5000, 50000), res, st)
+    # oracle through the real generated client
+    orng = ctx.sub_rng("oracle")
+    n = ctx.budget(40, 360)
+    ocases = []
+    for i, c in enumerate(gen_cases(orng, n, regions=False)):
+        ocases.append(with_variant(c, extract=i % 2 == 1, is_async=i % 5 != 0))
+    for i, c in enumerate(gen_cases(orng, max(4, n // 8), regions=True, mixin_frag=0.2)):
+        ocases.append(with_variant(c, extract=i % 2 == 0))
+    for region in TEXT_TRIGGERS:
+        for i, c in enumerate(gen_cases(orng, max(1, n // 40), regions=False, literal_region=region, literals=1.0)):
+            ocases.append(with_variant(c, extract=i % 2 == 1))
+    ctx.log(f"oracle: {len(ocases)} generated packages driven through the real client")
+    run_e2e_cases(ctx, ocases, res, st, "oracle")
+    res.oracle_only += [
+        "graphql-core print_ast / parse (the model's output is the document that is printed; the real string is parsed back)",
+        "black, isort, autoflake on the emitted module (observed through the real ast_to_str; the model covers unparse + the regex rewriter on safe texts)",
+        "the regex `.*?=.*?('.*?'\\s*){2,}` locating the statement (on safe texts it matches the whole assignment; validated by the embedding correspondence)",
+        "re-indentation does not change the GraphQL parse (indent_invariant is not proved): validated by parse(sent) == authored in the oracle",
+    ]
+    res.assumptions += [
+        "str.isprintable of the non-ASCII characters of a text is an environment parameter of the model (supplied per text by the harness); "
+        "embed_safe holds for every such predicate",
+        "fragments arguments / variable definitions are not part of the model's document IR: their preservation is judged by the oracle only",
+    ]
+    res.extra["unproved_region"] = ("Proved_02 = generator state within reachable (StateSound) and marks fresh: see Properties/C02.lean; measured per case "
+                                    "in input_distribution (`generator state NOT within reachable`)")
+    return res
+
+
+def search(ctx: Ctx) -> Result:
+    """after a broken proof / correspondence: judge the real code with the thorough budget"""
+    res = Result()
+    preload()
+    rng = ctx.sub_rng("search")
+    cases = []
+    for i, c in enumerate(gen_cases(rng, 220, regions=False)):
+        cases.append(with_variant(c, extract=i % 2 == 1))
+    for i, c in enumerate(gen_cases(rng, 60, regions=True, mixin_frag=0.2)):
+        cases.append(with_variant(c, extract=i % 2 == 0))
+    run_e2e_cases(ctx, cases, res, None, "search")
+    texts = gen_texts(ctx.sub_rng("search-texts"), 6000)
+    compare_embed([t for t in texts if text_trigger(t[0]) is None], res, None)
+    return res
+
+
+def replay(ctx: Ctx, payload: Dict[str, Any]) -> int:
+    inp = payload.get("input")
+    if not inp:
+        print(json.dumps(payload, indent=1)[:3000])
+        return 1
+    preload()
+    res = Result()
+    if "text" in inp:
+        r = real_embed(inp["text"], inp.get("variant", "client"))
+        k = 12 if inp.get("variant", "client") == "client" else 0
+        ok = r.get("sent") == expected_sent(k, inp["text"])
+        print(json.dumps({"trigger": text_trigger(inp["text"]), "real": r, "expected": expected_sent(k, inp["text"]), "preserved": ok}, indent=1))
+        return 0 if ok else 1
+    case = {k: inp[k] for k in ("sdl", "queries", "config", "calls", "label") if k in inp}
+    if EXTRACT_PLUGIN in ((case.get("config") or {}).get("plugins") or []):
+        case["want"] = ["sources"]
+    per = run_e2e_cases(ctx, [case], res, None, "replay")
+    for f in per[0]:
+        print(f"FAIL {f.signature} trigger={f.trigger}: {f.detail}")
+    if not per[0]:
+        print("ok: every operation of the case satisfies the property")
+    return 1 if per[0] else 0
